@@ -13,6 +13,9 @@ use harness::dsl::*;
 use harness::rng::Rng;
 use harness::sexp::{self, atom, list, Sexp};
 use std::cell::Cell;
+use std::future::Future;
+use std::pin::Pin;
+use std::task::{Context, Poll};
 use std::io::{BufRead, Write};
 use std::panic::{catch_unwind, AssertUnwindSafe};
 use std::sync::{Arc, Condvar, Mutex};
@@ -44,7 +47,10 @@ struct Sched {
     /// the thread that passed a point last and has not yet arrived at its next point / finished:
     /// exactly one thread runs between two schedule points
     running: Option<usize>,
+    /// grants whose thread has arrived at its next point (or finished) while the schedule was still in force
+    honoured: usize,
 }
+static HONOURED: std::sync::atomic::AtomicUsize = std::sync::atomic::AtomicUsize::new(0);
 
 static SCHED: Mutex<Option<Sched>> = Mutex::new(None);
 static CV: Condvar = Condvar::new();
@@ -60,6 +66,9 @@ fn point(_name: &'static str) {
     if let Some(s) = g.as_mut() {
         if s.running == Some(t) {
             s.running = None;
+            if !s.stuck {
+                s.honoured += 1;
+            }
             CV.notify_all();
         }
     }
@@ -69,11 +78,13 @@ fn point(_name: &'static str) {
         while s.pos < s.order.len() && s.done[s.order[s.pos]] {
             s.pos += 1;
         }
-        if s.pos >= s.order.len() || s.stuck {
+        // schedule exhausted (and the last granted thread has arrived at its next point, so that every grant was
+        // executed exclusively), or given up: free run
+        if (s.pos >= s.order.len() && s.running.is_none()) || s.stuck {
             s.trace.push(t);
-            return; // schedule exhausted: free run
+            return;
         }
-        if s.order[s.pos] == t && s.running.is_none() {
+        if s.pos < s.order.len() && s.order[s.pos] == t && s.running.is_none() {
             s.pos += 1;
             s.trace.push(t);
             s.running = Some(t);
@@ -99,6 +110,9 @@ fn finish_thread() {
             s.done[t] = true;
             if s.running == Some(t) {
                 s.running = None;
+                if !s.stuck {
+                    s.honoured += 1;
+                }
             }
         }
         CV.notify_all();
@@ -108,11 +122,12 @@ fn finish_thread() {
 fn with_schedule<R>(order: Vec<usize>, nthreads: usize, f: impl FnOnce() -> R) -> (R, Vec<usize>, bool) {
     // grants for threads that do not exist (a shrunk case with fewer calls) are skipped
     let order: Vec<usize> = order.into_iter().filter(|t| *t < nthreads).collect();
-    *SCHED.lock().unwrap() = Some(Sched { order, pos: 0, done: vec![false; nthreads], trace: vec![], stuck: false, running: None });
+    *SCHED.lock().unwrap() = Some(Sched { order, pos: 0, done: vec![false; nthreads], trace: vec![], stuck: false, running: None, honoured: 0 });
     crux_core::verif::install(Some(Arc::new(point)));
     let r = f();
     crux_core::verif::install(None);
     let s = SCHED.lock().unwrap().take().unwrap();
+    HONOURED.store(s.honoured, std::sync::atomic::Ordering::SeqCst);
     (r, s.trace, s.stuck)
 }
 
@@ -538,6 +553,136 @@ fn run_corerace(prog: Prog, pre: &[CAct], acts: &[CAct], order: Vec<usize>) -> O
     ))
 }
 
+
+// ---------------------------------------------------------------- slot scenario (protocol P-slot of QueuingExecutor)
+
+static SLOT_NEEDS: Mutex<Vec<Vec<u32>>> = Mutex::new(vec![]);
+static SLOT_POLLS: Mutex<Vec<Arc<std::sync::atomic::AtomicUsize>>> = Mutex::new(vec![]);
+
+/// counts the polls of the future it wraps
+struct Counting<F> {
+    inner: F,
+    n: Arc<std::sync::atomic::AtomicUsize>,
+}
+impl<F: Future + Unpin> Future for Counting<F> {
+    type Output = F::Output;
+    fn poll(mut self: Pin<&mut Self>, cx: &mut Context<'_>) -> Poll<F::Output> {
+        self.n.fetch_add(1, std::sync::atomic::Ordering::SeqCst);
+        Pin::new(&mut self.inner).poll(cx)
+    }
+}
+
+#[derive(Default)]
+pub struct SlotApp;
+impl crux_core::App for SlotApp {
+    type Event = Event;
+    type Model = ();
+    type ViewModel = ();
+    type Capabilities = Caps;
+    type Effect = Effect;
+    fn update(&self, ev: Event, _model: &mut (), caps: &Caps) -> Command<Effect, Event> {
+        if ev.tag == 1 {
+            // one executor task per entry: join_all of one-shot requests through the legacy capability API
+            let needs = SLOT_NEEDS.lock().unwrap().clone();
+            let polls = SLOT_POLLS.lock().unwrap().clone();
+            for (t, qs) in needs.iter().enumerate() {
+                let ctx = caps.cap.context.clone();
+                let futs: Vec<_> = qs.iter().map(|q| ctx.request_from_shell(TestOp { n: *q, v: 0 })).collect();
+                let n = polls[t].clone();
+                caps.cap.context.spawn(Counting { inner: Box::pin(async move { futures::future::join_all(futs).await; }), n });
+            }
+        }
+        Command::done()
+    }
+    fn view(&self, _model: &()) {}
+}
+
+fn run_slot(needs: Vec<Vec<u32>>, targets: Vec<u32>, order: Vec<usize>) -> Option<String> {
+    use std::sync::atomic::Ordering::SeqCst;
+    let polls: Vec<Arc<std::sync::atomic::AtomicUsize>> = needs.iter().map(|_| Arc::new(Default::default())).collect();
+    *SLOT_NEEDS.lock().unwrap() = needs.clone();
+    *SLOT_POLLS.lock().unwrap() = polls.clone();
+    let core: crux_core::Core<SlotApp> = crux_core::Core::new();
+    // sequential set-up: every task is polled once and is pending on all its requests
+    let effs = core.process_event(Event { tag: 1, v: 0 });
+    let mut reqs: Vec<(u32, Request<TestOp>)> = effs.into_iter().map(|Effect::Cap(r)| (r.operation.n, r)).collect();
+    let total: usize = needs.iter().map(Vec::len).sum();
+    if reqs.len() != total {
+        return Some(format!("bad-setup {}", reqs.len()));
+    }
+    for p in &polls {
+        p.store(0, SeqCst);
+    }
+    // thread r resolves request targets[r] (each request at most once: a second thread targeting it gets nothing)
+    let mut mine: Vec<Option<Request<TestOp>>> = targets
+        .iter()
+        .map(|q| reqs.iter().position(|(n, _)| n == q).map(|i| reqs.swap_remove(i).1))
+        .collect();
+    let n = targets.len();
+    let core_ref = &core;
+    let mut kept: Vec<Option<Request<TestOp>>> = (0..n).map(|_| None).collect();
+    let ((), _trace, stuck) = with_schedule(order, n, || {
+        std::thread::scope(|s| {
+            for (i, keep) in kept.iter_mut().enumerate() {
+                let r = mine[i].take();
+                s.spawn(move || {
+                    as_thread(i, || {
+                        if let Some(mut r) = r {
+                            let _ = core_ref.resolve(&mut r, 100 + i as i64);
+                            *keep = Some(r);
+                        }
+                    })
+                });
+            }
+        });
+    });
+    let forced = HONOURED.load(SeqCst);
+    let (tasks, ready, _spawn, _requests, _events) = core.verif_stats();
+    Some(format!(
+        "polls[{}] s{} q{} forced={}{}",
+        polls.iter().map(|p| p.load(SeqCst).to_string()).collect::<Vec<_>>().join(","),
+        tasks,
+        ready,
+        forced,
+        if stuck { " STUCK" } else { "" }
+    ))
+}
+
+fn gen_slot(seed: u64, n: usize) {
+    let out = std::io::stdout();
+    let mut out = std::io::BufWriter::new(out.lock());
+    let mut r = Rng::new(seed);
+    for _ in 0..n {
+        // 1-3 tasks joining 1-3 requests each; 2-3 threads with distinct targets, mostly aimed at the same task
+        let ntasks = 1 + r.below(3) as usize;
+        let mut needs: Vec<Vec<u32>> = vec![];
+        let mut q = 0u32;
+        for t in 0..ntasks {
+            let k = if t == 0 { 2 + r.below(2) } else { 1 + r.below(2) };
+            needs.push((0..k).map(|_| { q += 1; q - 1 }).collect());
+        }
+        let nthreads = 2 + r.below(2) as usize;
+        let mut all: Vec<u32> = (0..q).collect();
+        // bias: requests of task 0 first
+        if r.chance(1, 3) {
+            for i in (1..all.len()).rev() {
+                let j = r.below(i as u64 + 1) as usize;
+                all.swap(i, j);
+            }
+        }
+        let targets: Vec<u32> = all.into_iter().take(nthreads).collect();
+        let len = r.below(28) as usize;
+        let order: Vec<usize> = (0..len).map(|_| r.below(targets.len() as u64) as usize).collect();
+        let line = list(vec![
+            atom("slot"),
+            list(needs.iter().map(|qs| list(qs.iter().map(atom).collect())).collect()),
+            list(targets.iter().map(atom).collect()),
+            order_sexp(&order),
+        ]);
+        writeln!(out, "{line}").unwrap();
+    }
+}
+
 // ---------------------------------------------------------------- bridgerace scenario (several threads on one Bridge)
 
 fn run_bridgerace(prog: Prog, pre: &[CAct], acts: &[CAct], order: Vec<usize>) -> Option<String> {
@@ -704,6 +849,15 @@ fn run_case(line: &str) -> Option<String> {
             let acts: Vec<CAct> = acts.as_list()?.iter().map(parse_cact).collect::<Option<_>>()?;
             run_bridgerace(parse_prog(prog)?, &pre, &acts, order_of(order)?)
         }
+        ("slot", [needs, targets, order]) => {
+            let needs: Vec<Vec<u32>> = needs
+                .as_list()?
+                .iter()
+                .map(|l| l.as_list()?.iter().map(|q| q.num()).collect::<Option<Vec<u32>>>())
+                .collect::<Option<_>>()?;
+            let targets: Vec<u32> = targets.as_list()?.iter().map(|q| q.num()).collect::<Option<_>>()?;
+            run_slot(needs, targets, order_of(order)?)
+        }
         ("corerace", [prog, pre, acts, order]) => {
             let pre: Vec<CAct> = pre.as_list()?.iter().map(parse_cact).collect::<Option<_>>()?;
             let acts: Vec<CAct> = acts.as_list()?.iter().map(parse_cact).collect::<Option<_>>()?;
@@ -718,7 +872,9 @@ fn run_case(line: &str) -> Option<String> {
 }
 
 fn run() {
-    std::panic::set_hook(Box::new(|_| {}));
+    if std::env::var("CONC_DEBUG").is_err() {
+        std::panic::set_hook(Box::new(|_| {}));
+    }
     let stdin = std::io::stdin();
     let out = std::io::stdout();
     let mut out = std::io::BufWriter::new(out.lock());
@@ -973,6 +1129,7 @@ fn main() {
                 "corerace" => gen_corerace(seed, n),
                 "bridgerace" => gen_bridgerace(seed, n),
                 "abortrace" => gen_race(seed, n, true),
+                "slot" => gen_slot(seed, n),
                 _ => gen_race(seed, n, false),
             }
         }
